@@ -17,6 +17,7 @@ import (
 	_ "verif/mc/props/c13"
 	_ "verif/mc/props/c14"
 	_ "verif/mc/props/c15"
+	_ "verif/mc/props/c16"
 	_ "verif/mc/props/c17"
 	_ "verif/mc/props/c19"
 )
